@@ -156,6 +156,13 @@ theorem C01_batch_atomic :
     OntVerif.Gen.BatchAtomic.state_NewBatch = "$.store.NewBatch()" := by
   decide
 
+/-- **Every iteration of the replay loop reaches all its effects, whatever the block contains** (regenerated): the
+statements carrying the effects of an iteration (in `recoverStore` and the helpers its body was extracted into) are
+guarded by nothing but the absence of an earlier error. This is what the model's `replayAll` (a fold over the heights
+`stateHeight+1 … blockHeight`, not over "interesting" blocks) assumes; a conditional skip such as "empty blocks need no
+recovery" — an empty block's state batch still carries the current-block marker and the merkle leaves — breaks it. -/
+theorem C01_replay_unconditional : OntVerif.Gen.Recover.replayUnconditional = true := by decide
+
 /-- **C01 for the replay loop, commit order and recovery commits extracted from the source on this run.** -/
 theorem C01_recover :
     C01_statement OntVerif.Gen.Recover.loopLo OntVerif.Gen.Recover.loopHi OntVerif.Gen.Recover.blockArg
